@@ -170,3 +170,18 @@ CHECKS["C12"] = {
     "technique": "contract-based deductive verification: loop invariant over z3 arrays (unbounded) plus symbolic execution of the real constructors per structure skeleton; native replay",
 }
 NOT_APPLICABLE.pop("C12", None)
+
+CHECKS["C14"] = {
+    "category": "proof",
+    "text": ("EmpiricalDistribution and ToyCalculator are executed symbolically on the current source for an ARBITRARY number of toys: pvalue(v) is "
+             "exactly #{s_i >= v}/n with ties counted (a symbolic sum, rules R1-R3), lies in [0,1] and never increases with v; expected_value forwards "
+             "Phi(nsigma)*100 to the linear percentile. ToyCalculator.distributions: signal toys are drawn from make_pdf(fixed_poi_fit(poi_test,...)), "
+             "background toys from make_pdf(fixed_poi_fit(0 | 1 for q0,...)) with sample shape (ntoys,), and - by loop invariants over the two toy "
+             "loops - entry i of either distribution is teststat(poi_test, sample_i, pdf, init, bounds, fixed); pvalues gives the two tail fractions "
+             "and their ratio; teststatistic is the statistic of the observed data. NOT decided: the sampling distributions themselves (integer "
+             "counts, mean = variance = rate, auxiliary values ~ constraint terms) and the agreement of toy estimates with exact tails - statistical "
+             "statements about external samplers."),
+    "note": "samplers, make_pdf and percentile uninterpreted; fit and statistic functions by their C05/C06 contracts; R1-R3 reduction rules trusted",
+    "technique": "contract-based deductive verification: symbolic sums with congruence/bound rules, loop invariants over the toy loops, z3; native replay with stubs",
+}
+NOT_APPLICABLE.pop("C14", None)
